@@ -7,8 +7,15 @@
   (pjax.py:1327-1399), and — as the code is — (v) the JVP rule of `sample_p` evaluates the keyless
   sampler, i.e. differentiation INLINES the site with a hidden key (pjax.py:440-450), and
   (vi) `jax.vmap` never consults the batch rule when no argument of the site is batched, and
-  (vii) a draw inlined by (v) below a `jit` that sits inside a modular_vmap is one trace-time constant
-  shared by all lanes (modular_vmap does not re-stage nested jits), found by the exhaustive depth-3 run.
+  (vii) an OPAQUE higher-order construct (jax.checkpoint, custom_jvp, custom_vjp: the wrapped function is
+  the sub-jaxpr of one equation that JAX evaluates eagerly, without compiling) is interpreted neither by
+  Seed nor by modular_vmap, and
+  (viii) Seed and modular_vmap raise the site's lowering error when they meet an equation they do not
+  interpret (opaque, jit, while, dynamic fori) whose sub-jaxprs still hold a site (pjax.py
+  `_nested_sample_params`, fix commits c963c34 / df67764).  Before, both re-bound it unchanged: `seed`
+  ignored its key for opaque constructs, modular_vmap shared one draw between the lanes, and a draw
+  inlined by (v) below a `jit` inside a modular_vmap was one trace-time constant for all lanes (the
+  former rule (vii), found by the exhaustive depth-3 run; that path now raises).
   Validated against real JAX by exhaustive enumeration to depth 3 on every run (harness).
 -/
 namespace Genjax.Lowering
@@ -19,6 +26,7 @@ inductive C where
   | vmapB      -- jax.vmap, the site's arguments are batched
   | vmapU      -- jax.vmap, the site's arguments are not batched
   | mvmap      -- modular_vmap
+  | opaque     -- jax.checkpoint / custom_jvp / custom_vjp around the site (rule viii)
   deriving DecidableEq, Repr
 
 def C.compiles : C → Bool
@@ -60,22 +68,33 @@ def outerOf : List C → List C
   | [] => []
   | c :: rest => if rest.contains .grad then c :: outerOf rest else (if c = .grad then [] else [])
 
-/-- (vii) modular_vmap re-stages scan / cond / switch / fori bodies but not a nested `jit`: a
-    modular_vmap with a `jit` somewhere below it -/
-def mvmapOverJit : List C → Bool
-  | [] => false
-  | c :: rest => (c == .mvmap && rest.contains .jit) || mvmapOverJit rest
+/-- constructs the modular_vmap interpreter interprets (scan, cond, switch, static fori) or that are not
+    equations of the staged jaxpr (transformations) -/
+def C.mvmapInterprets : C → Bool
+  | .scan | .cond | .switch | .fori | .grad | .vmapB | .vmapU | .mvmap => true
+  | _ => false
+
+/-- (viii) the outermost modular_vmap with a construct below it that its interpreter does not interpret:
+    anything traced inside it runs first (a plain vmap with batched site arguments raises the batch
+    error while the mapped function is staged); otherwise the interpreter raises the lowering error.
+    Applied to the part of the placement in which the site is still a site (`innerOf`). -/
+def mvmapOpaque : List C → Option Out
+  | [] => none
+  | c :: rest =>
+    if c = .mvmap && rest.any (fun d => !d.mvmapInterprets) then
+      some (if rest.contains .vmapB then .batchError else .loweringError)
+    else mvmapOpaque rest
 
 def hasUnbatchedMap (pl : List C) (inlined : Bool) : Bool :=
   pl.contains .vmapU ||
-    (inlined && ((outerOf pl).contains .mvmap || (outerOf pl).contains .vmapB ||
-                 mvmapOverJit (innerOf pl)))
+    (inlined && ((outerOf pl).contains .mvmap || (outerOf pl).contains .vmapB))
 
 /-- calling the placement without `seed` -/
 def outcome (cfg : Cfg) (pl : List C) : Out :=
   let effGrad := cfg.gradInlines && hasGrad pl
   let inner := if effGrad then innerOf pl else pl
-  if inner.contains .vmapB then .batchError
+  if let some o := mvmapOpaque inner then o
+  else if inner.contains .vmapB then .batchError
   else if effGrad then
     (if pl.any C.compiles then .baked else if hasUnbatchedMap pl true then .replicated else .fresh)
   else if pl.any C.compiles then .loweringError
@@ -86,7 +105,8 @@ def outcome (cfg : Cfg) (pl : List C) : Out :=
 def seeded (cfg : Cfg) (pl : List C) : Out :=
   let effGrad := cfg.gradInlines && hasGrad pl
   let inner := if effGrad then innerOf pl else pl
-  if inner.contains .vmapB then .batchError
+  if let some o := mvmapOpaque inner then o
+  else if inner.contains .vmapB then .batchError
   else if effGrad then (if hasUnbatchedMap pl true then .replicated else .keyIgnored)
   else if !(pl.all (fun c => c.seedInterprets || c = .grad)) then .loweringError
   else if pl.contains .vmapU then (if cfg.vmapUnbatchedSilent then .replicated else .batchError)
